@@ -450,29 +450,48 @@ class PathState(object):
             goal = z3.BoolVal(goal)
         g = z3.simplify(goal)
         t0 = time.time()
+        # a conjunction is proved conjunct by conjunct (each has a small cone)
+        parts = list(g.children()) if (z3.is_and(g) and not self.guards) else [g]
+        ob = None
+        backends = set()
+        for part in parts:
+            o1 = self._prove_one(name, part, detail, kind)
+            backends.add(o1.backend)
+            if o1.status != "discharged":
+                ob = o1
+                break
+        if ob is None:
+            ob = Obligation(name, "discharged", detail, kind=kind)
+            bs = sorted(b for b in backends if b)
+            ob.backend = bs[0] if len(bs) == 1 else "+".join(bs)
+        ob.seconds = time.time() - t0
+        ob.path = list(self.trace[: self.pos])
+        self.obligations.append(ob)
+        if ob.status == "discharged" and not self.guards and "z3" in (ob.backend or ""):
+            self.assume(g)
+        return ob.status == "discharged"
+
+    def _prove_one(self, name, g, detail, kind):
         ob = None
         if z3.is_true(g):
             ob = Obligation(name, "discharged", detail, kind=kind)
             ob.backend = "trivial"
-        elif not self.guards:
+            return ob
+        if not self.guards:
             n = self.fd_view(g)
             if n is not None:
                 ob = self._prove_fd(name, g, n, detail, kind)
-        if ob is None:
-            r, model, dt = self._check(z3.Not(g), *self.guards)
-            if r == z3.unsat:
-                ob = Obligation(name, "discharged", detail, kind=kind)
-            elif r == z3.sat:
-                ob = Obligation(name, "refuted", detail, model=self.engine.snapshot_model(self, model), kind=kind)
-            else:
-                ob = Obligation(name, "unknown", (detail or "") + " solver: unknown", kind=kind)
-            ob.backend = "z3"
-        ob.seconds = time.time() - t0
-        ob.path = list(self.trace[: self.pos])
-        self.obligations.append(ob)
-        if ob.status == "discharged" and not self.guards and ob.backend not in ("fd-eval", "trivial"):
-            self.assume(g)
-        return ob.status == "discharged"
+                if ob is not None:
+                    return ob
+        r, model, dt = self._check(z3.Not(g), *self.guards)
+        if r == z3.unsat:
+            ob = Obligation(name, "discharged", detail, kind=kind)
+        elif r == z3.sat:
+            ob = Obligation(name, "refuted", detail, model=self.engine.snapshot_model(self, model), kind=kind)
+        else:
+            ob = Obligation(name, "unknown", (detail or "") + " solver: unknown", kind=kind)
+        ob.backend = "z3"
+        return ob
 
     def fail(self, name, detail, status="refuted", model_from_pc=True, kind="vc"):
         """an obligation that fails on this path whenever the path is feasible"""
@@ -1172,8 +1191,21 @@ class Engine(object):
         and without calls into the code under verification (a callee's effect is usually a
         case split that is better taken as a fork)
         """
+        def walk(n):
+            # the tests of nested conditionals are not part of what gets merged
+            yield n
+            for name, val in ast.iter_fields(n):
+                if isinstance(n, (ast.If, ast.IfExp)) and name == "test":
+                    continue
+                if isinstance(val, ast.AST):
+                    yield from walk(val)
+                elif isinstance(val, list):
+                    for x in val:
+                        if isinstance(x, ast.AST):
+                            yield from walk(x)
+
         for s in stmts:
-            for n in ast.walk(s):
+            for n in walk(s):
                 if isinstance(n, (ast.Return, ast.Raise, ast.Break, ast.Continue, ast.Try, ast.While)):
                     return False
                 if isinstance(n, ast.Call):
